@@ -29,6 +29,17 @@ func genLSOpC02(t *rapid.T, cfg lsw.Config) lsw.Op {
 	return lsw.Op{K: k}
 }
 
+// genLSOpC02I is genLSOpC02 plus, for a quarter of the ops, application activity placed by the harness between
+// litestream's own steps (see C01's interleaved run): commits that land while the WAL is being read or the LTX file
+// written, during the checkpoint sequence, or while a snapshot is being encoded.
+func genLSOpC02I(t *rapid.T, cfg lsw.Config, m *lsw.GenModel) lsw.Op {
+	o := genLSOpC02(t, cfg)
+	if rapid.IntRange(0, 3).Draw(t, "interleave") == 0 {
+		o.X = genInterleave(t, m, o.K)
+	}
+	return o
+}
+
 func genC02(t *rapid.T) lsw.Case {
 	cfg := lsw.GenConfig(t, core.Thorough())
 	cfg.SmallCache = rapid.IntRange(0, 4).Draw(t, "smallcache") > 0
@@ -96,7 +107,7 @@ func genC02(t *rapid.T) lsw.Case {
 					ops = append(ops, lsw.Op{K: "insert", T: 0, N: rapid.SampledFrom([]int{1, 3, 8, 20}).Draw(t, "n"), S: rapid.SampledFrom([]int{1, 2, 2, 3}).Draw(t, "size")})
 				}
 				for rapid.IntRange(0, 2).Draw(t, "lsBetween") == 0 {
-					ops = append(ops, genLSOpC02(t, cfg))
+					ops = append(ops, genLSOpC02I(t, cfg, m))
 				}
 			}
 			if rapid.IntRange(0, 2).Draw(t, "rollback") == 0 {
@@ -108,7 +119,7 @@ func genC02(t *rapid.T) lsw.Case {
 		case 5, 6:
 			ops = append(ops, m.AppOp(t))
 		default:
-			ops = append(ops, genLSOpC02(t, cfg))
+			ops = append(ops, genLSOpC02I(t, cfg, m))
 		}
 	}
 	ops = append(ops, m.CloseOutTx()...)
